@@ -165,6 +165,14 @@ HANDLER_ARITH = [
 ]
 
 
+def _with_facts(e, s):
+    """snapshot of the guards dominating the site at review time (re-validated on every run by census.entry_lapsed)"""
+    f = census.site_facts(s)
+    if f:
+        e["facts"] = f
+    return e
+
+
 def _norm_witness(w, s):
     """`fact` witnesses are stored with local names replaced by types, like the site keys"""
     import copy
@@ -196,7 +204,7 @@ def handler_table(P):
                 unc.append(s)
                 continue
             used.add(hit[0])
-            out.append({"key": s.key, "reason": hit[1]})
+            out.append(_with_facts({"key": s.key, "reason": hit[1]}, s))
     # arithmetic on request coordinates (R-REQ-ARITH): exact keys
     raw2key = {}
     for fq in sorted(seen):
@@ -231,7 +239,7 @@ def stream_table(P):
                 unc.append(s)
                 continue
             used.add(hit[0])
-            out.append({"key": s.key, "class": hit[1], "reason": hit[2]})
+            out.append(_with_facts({"key": s.key, "class": hit[1], "reason": hit[2]}, s))
     with open(os.path.join(HERE, "tables", "stream_sites.json"), "w") as fh:
         json.dump({"comment": "reviewed panic-capable sites in bulk streams (C02 R-STREAM-TOTAL): none may depend on the requested box vs. the coverage", "sites": out}, fh, indent=1)
     print("stream table: %d entries; %d notes unused; %d uncovered" % (len(out), len(STREAM_NOTES) - len(used), len(unc)))
@@ -264,7 +272,7 @@ def main():
                 uncovered.append(s)
                 continue
             used_notes.add(hit[0])
-            e = {"key": s.key, "reason": hit[1]}
+            e = _with_facts({"key": s.key, "reason": hit[1]}, s)
             if hit[2]:
                 e["witness"] = _norm_witness(hit[2], s)
             out.append(e)
